@@ -223,10 +223,26 @@ def sym_concatenate_func(vc):
                     cover(it, 'iter-reachable' + tag)
                 for l in range(6):
                     it.loops['func#L%d' % l] = LoopSpec(modes=('exit',))
-                it.loops['func#L6'] = LoopSpec(at_start=at_start, at_end=at_end)
+                it.loops['func#L6'] = LoopSpec(at_start=at_start, at_end=at_end,
+                                               at_exit=lambda it, env: it.path.info.__setitem__('n_conc', env.lookup('num_concatenated')))
                 it.run_generator(it.call(func, [package]))
                 ys = yields_of(it.path.events)
-                check(it, 'package-first' + tag, len(ys) == 1 and ys[0].obj is package.attrs['pkg'])
+                check(it, 'package-first' + tag, len(ys) >= 1 and ys[0].obj is package.attrs['pkg'])
+                if 'n_conc' in it.path.info:
+                    # after the last resource: when NOTHING was selected the target (listed last in the descriptor) still gets its
+                    # stream -- an empty one --, so that streams and descriptors pair up; otherwise nothing more is yielded
+                    n = term(it.path.info['n_conc'], IntS)
+                    extra = ys[1:]
+                    check(it, 'one-more-stream-exactly-when-nothing-was-selected' + tag, _b(len(extra) == 1) == (n == 0) if len(extra) <= 1 else False)
+                    if len(extra) == 1:
+                        y = extra[0].obj
+                        ok = isinstance(y, GenObj) and fn_named(y, 'concatenator')
+                        if ok:
+                            kind_, items_ = it.lib.iterate(it, y.args[0])
+                            ok = kind_ == 'concrete' and not list(items_)
+                        check(it, 'the-stream-of-an-empty-selection-is-empty' + tag, ok)
+                else:
+                    check(it, 'only-the-package-outside-the-loop' + tag, len(ys) == 1)
             paths = vc.explore(fk, thunk2, min_paths=2)
             expect_no_raise_or_same(vc, fk, paths)
 
